@@ -182,10 +182,15 @@ fn threads_child(a: &[String]) -> ! {
                 b"none\0".as_ptr() as *const libc::c_char,
                 b"/var/run/clockbound\0".as_ptr() as *const libc::c_char,
                 b"tmpfs\0".as_ptr() as *const libc::c_char,
-                0,
+                // optional 10th value: 1 = the directory of the segment is read-only for the whole run (the segment cannot be created)
+                if n(9) == 1 { libc::MS_RDONLY } else { 0 },
                 std::ptr::null(),
             ) == 0
     };
+    if n(9) == 1 && !isolated {
+        println!("not_isolated_cannot_make_the_segment_directory_read_only");
+        std::process::exit(0);
+    }
     clock_bound_d::verif::fault::arm(n(0), n(1), n(2));
     // optional 4th value: hold the dying thread for that many ms between its notice to the main thread and the closing of its mailbox
     clock_bound_d::verif::fault::set_notify_delay(n(3));
@@ -339,7 +344,7 @@ fn nowchild(a: &[String]) -> ! {
     let path = a.get(0).cloned().unwrap_or_default();
     let which = a.get(1).cloned().unwrap_or_default();
     if a.get(2).map(|s| s.as_str()) == Some("stalled") {
-        nowchild_stalled(&path, &which);
+        nowchild_stalled(&path, &which, a.get(3).map(|s| s.as_str()) == Some("vclock"));
     }
     let t0 = std::time::Instant::now();
     let res = if which == "c" {
@@ -371,7 +376,7 @@ fn nowchild(a: &[String]) -> ! {
 /// `--nowchild <path> <rust|c> stalled`: the client has the segment open; the daemon publishes a new record and, while the client's next
 /// call is copying it (between the call's first and second load of the generation), starts another update and dies inside it.  That call
 /// runs out of retries (bounded work, an error).  Then the same client object is asked again: that call has to return too.
-fn nowchild_stalled(path: &str, which: &str) -> ! {
+fn nowchild_stalled(path: &str, which: &str, vclock: bool) -> ! {
     use clock_bound_shm::verif_shim::{set_observer, Access};
     use std::os::unix::fs::FileExt;
     let mono = {
@@ -409,6 +414,13 @@ fn nowchild_stalled(path: &str, which: &str) -> ! {
             }
         })));
     };
+    if vclock {
+        // every clock the client reads is virtual: the calls start 970 ms into a second and each clock read takes 1 ms (a call that
+        // measures its own patience with the clock must cope with the second rolling over)
+        VCLOCK.with(|v| {
+            *v.borrow_mut() = VClock { active: true, real: (1_700_000_000, 970_000_000), mono: (mono, 970_000_000), reads: vec![], fail_id: None, advance_ns: 0, advance_all: 1_000_000 };
+        });
+    }
     let mut out = Vec::new();
     if which == "c" {
         unsafe {
@@ -464,6 +476,7 @@ fn cmd_nowahead(a: &[&str]) -> String {
     unsafe { libc::syscall(libc::SYS_clock_gettime, libc::CLOCK_MONOTONIC, &mut ts) };
     let mut bytes = seg::header_bytes(72, 1, 2);
     let stalled = a.get(2).copied() == Some("stalled");
+    let vclock = a.get(3).copied() == Some("vclock");
     let a_s = if stalled { ts.tv_sec - 1 } else { ts.tv_sec + 3600 };
     bytes.extend_from_slice(&a_s.to_ne_bytes());
     bytes.extend_from_slice(&0i64.to_ne_bytes());
@@ -481,7 +494,7 @@ fn cmd_nowahead(a: &[&str]) -> String {
         Ok(e) => e,
         Err(_) => return "noexe".into(),
     };
-    let mut child = match std::process::Command::new(exe).arg("--nowchild").arg(&path).arg(which).args(if stalled { vec!["stalled"] } else { vec![] }).stdin(std::process::Stdio::null()).stdout(std::process::Stdio::piped()).stderr(std::process::Stdio::null()).spawn() {
+    let mut child = match std::process::Command::new(exe).arg("--nowchild").arg(&path).arg(which).args(if stalled && vclock { vec!["stalled", "vclock"] } else if stalled { vec!["stalled"] } else { vec![] }).stdin(std::process::Stdio::null()).stdout(std::process::Stdio::piped()).stderr(std::process::Stdio::null()).spawn() {
         Ok(c) => c,
         Err(_) => return "nospawn".into(),
     };
@@ -789,6 +802,7 @@ fn cmd_threads(a: &[&str]) -> String {
         .arg(a.get(7).copied().unwrap_or("0"))
         .arg(a.get(8).copied().unwrap_or("0"))
         .arg(a.get(9).copied().unwrap_or("0"))
+        .arg(a.get(10).copied().unwrap_or("0"))
         .stdin(std::process::Stdio::null())
         .stdout(std::process::Stdio::piped())
         .stderr(std::process::Stdio::null())
